@@ -282,7 +282,8 @@ def main(tier):
     ties = mism = 0
     kinds = {"boundary": len(boundary_summaries(rng)), "random": n_rand, "monotone_pairs": n_pairs}
     model = None
-    if impl and ck.make_ok or (impl and not any("Score/" in f or "Gen/" in f for f in ck.failed_files)):
+    NEEDED = ("Score/ScoreQ.v", "Score/ScoreRun.v", "Score/ScoreBase.v", "Gen/DomainConst.v")
+    if impl and (ck.make_ok or not any(f in NEEDED for f in ck.failed_files)):
         try:
             model = []
             shard = 250
@@ -366,7 +367,7 @@ def main(tier):
         reqs.append({"op": "assemble", "Sel": s2, "A": a})
     aimpl = lib.driver(reqs) if ck.go_ok else []
     amodel = None
-    if aimpl and not any("Score/" in f or "Gen/" in f for f in ck.failed_files):
+    if aimpl and (ck.make_ok or not any(f in NEEDED for f in ck.failed_files)):
         try:
             amodel = []
             shard = 100
